@@ -43,6 +43,11 @@ type routeSpec struct {
 // newEngine builds the standard topology: per protocol two healthy upstream hosts in cluster cl-<proto>, a cluster
 // without hosts, a cluster whose only host refuses connections, and the given routes per protocol.
 func newEngine(c *lab.Ctx, protos []string, routes func(proto string) []routeSpec, clusterExtra func(name string) jmap, listenerTweak func(l *mosnListener)) (*engine, error) {
+	return newEngineWith(c, protos, routes, clusterExtra, listenerTweak, nil)
+}
+
+// newEngineWith additionally lets the caller edit the virtual-host and router-configuration objects (header actions).
+func newEngineWith(c *lab.Ctx, protos []string, routes func(proto string) []routeSpec, clusterExtra func(name string) jmap, listenerTweak func(l *mosnListener), routerTweak func(proto string, vhost jmap, routerCfg jmap)) (*engine, error) {
 	e := &engine{c: c, log: newEvLog(), ups: map[string]*upstream{}, ports: map[string]int{}}
 	ports := freePorts(len(protos) + 2)
 	e.dead = fmt.Sprintf("127.0.0.1:%d", ports[len(protos)])
@@ -102,7 +107,12 @@ func newEngine(c *lab.Ctx, protos []string, routes func(proto string) []routeSpe
 			}
 			rs = append(rs, entry)
 		}
-		cfg.Routers = append(cfg.Routers, jmap{"router_config_name": "rt-" + p, "virtual_hosts": []jmap{{"name": "vh-" + p, "domains": []string{"*"}, "routers": rs}}})
+		vh := jmap{"name": "vh-" + p, "domains": []string{"*"}, "routers": rs}
+		rc := jmap{"router_config_name": "rt-" + p, "virtual_hosts": []jmap{vh}}
+		if routerTweak != nil {
+			routerTweak(p, vh, rc)
+		}
+		cfg.Routers = append(cfg.Routers, rc)
 		l := mosnListener{Name: "ln-" + p, Port: ports[i], Downstream: p, Upstream: p, Router: "rt-" + p}
 		if listenerTweak != nil {
 			listenerTweak(&l)
